@@ -812,6 +812,13 @@ impl HistogramVec {
     /// [`HistogramOpts`] and partitioned by the given label names. At least
     /// one label name must be provided.
     pub fn new(opts: HistogramOpts, label_names: &[&str]) -> Result<HistogramVec> {
+        for name in label_names {
+            check_bucket_label(name)?;
+        }
+        for name in opts.common_opts.const_labels.keys() {
+            check_bucket_label(name)?;
+        }
+
         let variable_names = label_names.iter().map(|s| (*s).to_owned()).collect();
         let opts = opts.variable_labels(variable_names);
         let metric_vec =
